@@ -60,6 +60,11 @@ func exhaustionCases() []exhaustCase {
 		{"source with a sum of 1.5 million terms", "令甲 = " + strings.Repeat("1 + ", 1500000) + "1\n输出甲", 0},
 		{"source with a sum of 4000 terms", "令甲 = " + strings.Repeat("1 + ", 4000) + "1\n输出甲", 0},
 		{"source with an index chain of 1 million links", "令甲 = 【1】\n令乙 = 甲" + strings.Repeat("#1", 1000000), 0},
+		// the PRODUCT of two bounded things: nesting inside the body (below the parser's bound) at
+		// every level of a recursion (far below the bound on nested calls)
+		{"2400 nested groups in the body of a method recursing 3000 levels deep", "如何F？\n    输入N\n    如果N < 1：\n        输出 0\n    输出 " + deep("1 + {", "（F：N - 1）", "}", 2400) + "\n输出（F：3000）", 0},
+		{"2000 nested lists in the body of a method recursing 5000 levels deep", "如何F？\n    输入N\n    如果N < 1：\n        输出 0\n    输出 " + deep("【", "（F：N - 1）", "】", 2000) + "\n输出（F：5000）", 0},
+		{"a call chain of 3000 argument levels in the body of a method recursing 3000 levels deep", "如何G？\n    输入X\n    输出X\n如何F？\n    输入N\n    如果N < 1：\n        输出 0\n    输出 " + deep("（G：", "（F：N - 1）", "）", 3000) + "\n输出（F：3000）", 0},
 		{"source with 1 million nested calls", "如何F？\n    输入X\n    输出X\n令甲 = " + deep("（F：", "1", "）", 1000000), 0},
 	}
 }
